@@ -4,6 +4,7 @@ C31 — Date and IP codecs agree with the standard library.  Property theorems o
 -/
 import FhVerif.Proofs.HttpDate
 import FhVerif.Proofs.IPAddr
+import FhVerif.Model.URI
 
 namespace Fh.Props.C31
 open Fh Fh.Model Fh.Spec Fh.Proofs.HttpDate Fh.Proofs.IPAddr
@@ -90,6 +91,81 @@ theorem ipv4_octets_le_255 (s : Bytes) (ip : List Nat) (h : parseIPv4 s = .ok ip
   obtain ⟨f, hf, rfl⟩ := List.mem_map.1 ho
   exact (h2 f hf).2.2
 
+
+/-! ### IPv6 literals in URI hosts -/
+
+/-- C31 (URI level): whatever host URI.parse accepts has passed validateIPv6Literal in its final, decoded form —
+    with or without a zone, with or without a port (this is what the repaired parseHost guarantees). -/
+theorem uri_host_validated (h r : Bytes) (hp : parseHost h = .ok r) : validateIPv6Literal r = none := by
+  have hcv : ∀ x r', checkV6 x = .ok r' → validateIPv6Literal r' = none := by
+    intro x r' hc
+    unfold checkV6 at hc
+    split at hc
+    · cases hc
+    · rename_i hn; injection hc with hc; subst hc; exact hn
+  have generic : ∀ r', (match unescape h false with
+      | .error e => (Except.error e : Except UErr Bytes)
+      | .ok x => checkV6 x) = .ok r' → validateIPv6Literal r' = none := by
+    intro r' hg
+    split at hg
+    · cases hg
+    · exact hcv _ _ hg
+  unfold parseHost at hp
+  simp only at hp
+  split at hp
+  · split at hp
+    · cases hp
+    · split at hp
+      · cases hp
+      · split at hp
+        · cases hp
+        · split at hp
+          · split at hp
+            · cases hp
+            · split at hp
+              · cases hp
+              · split at hp
+                · cases hp
+                · exact hcv _ _ hp
+          · exact generic r hp
+  · split at hp
+    · cases hp
+    · split at hp
+      · split at hp
+        · cases hp
+        · split at hp
+          · cases hp
+          · exact generic r hp
+      · exact generic r hp
+
+/-- an accepted bracketed literal "[" addr ["%" zone] "]" … has a non-empty address that passed the address checks
+    and, when a zone is present, a non-empty zone -/
+theorem ipv6_literal_checked (t : Bytes) (h : validateIPv6Literal (91 :: t) = none) :
+    let lit := t.takeWhile (· != 93)
+    let addr := lit.takeWhile (· != 37)
+    t.contains 93 = true ∧ lit ≠ [] ∧ validIPv6Addr addr = true ∧
+      (lit.contains 37 = true → addr.length ≠ lit.length - 1) := by
+  simp only [validateIPv6Literal] at h
+  split at h
+  · cases h
+  · rename_i h93
+    split at h
+    · cases h
+    · rename_i hne
+      split at h
+      · cases h
+      · rename_i hz
+        split at h
+        · rename_i hv
+          refine ⟨by simpa using h93, by intro he; simp [he] at hne, hv, ?_⟩
+          intro hc; simp at hz; exact hz (by simpa using hc)
+        · cases h
+
+/-- the full IPv6 clause: every address validIPv6Addr accepts is an RFC 4291 §2.2 text form (`Spec.ipv6TextSpec`),
+    and every zone-less text form is accepted.  Decided on every run by the exhaustive small-alphabet enumeration
+    (model = spec = net/netip on all strings over {1 a : .} up to length 8 / 10) and the structured literals. -/
+def C31_ipv6_full : Prop := ∀ addr : Bytes, validIPv6Addr addr = ipv6TextSpec addr
+
 /-! non-vacuity -/
 example : parseRFC1123DateGMT (ofString "Mon, 02 Jan 2006 15:04:05 GMT") = some 1136214245 := by decide +kernel
 example : httpDateSpec (ofString "sUN, 29 fEB 2004 23:59:59 GMT") = some 1078099199 := by decide +kernel
@@ -106,5 +182,13 @@ example : (parseIPv4 (ofString "1.2.3")).toOption = none := by decide +kernel
 example : (parseIPv4 (ofString "1..2.3")).toOption = none := by decide +kernel
 example : dottedQuadSpec (ofString "1.2.3.4.5") = none := by decide +kernel
 example : appendIPv4 [127, 0, 0, 1] = ofString "127.0.0.1" := by decide +kernel
+example : validateIPv6Literal (ofString "[::ffff:1.2.3.4]:443") = none := by decide +kernel
+example : validateIPv6Literal (ofString "[1:2:3:4:5:6:7::]") = none := by decide +kernel
+example : validateIPv6Literal (ofString "[1::2::3]") = some .address := by decide +kernel
+example : validateIPv6Literal (ofString "[1:2:3:4:5:6::1.2.3.4]") = some .address := by decide +kernel
+example : ipv6TextSpec (ofString "fe80::1") = true ∧ ipv6TextSpec (ofString "1:2:3:4:5:6:7:8:9") = false ∧
+    ipv6TextSpec (ofString "::01.2.3.4") = false := by decide +kernel
+example : (parseHost (ofString "[zzz%25x]")).toOption = none := by decide +kernel
+example : (parseHost (ofString "[fe80::1%25en0]:80")).toOption = some (ofString "[fe80::1%en0]:80") := by decide +kernel
 
 end Fh.Props.C31
